@@ -55,6 +55,7 @@ FAULT_PROPS = {
     "OVERFLOW_OK": {"C03"},
     "OVERFLOW_STATE": {"C03"},
     "SHAPES_PANIC": {"C06"},
+    "MIRI": None,
     "CRASH": None,  # every property
 }
 # suites whose base cases get every fault position of the listed kinds
@@ -450,6 +451,76 @@ def nostd_check():
     return True, note
 
 
+MIRI_PROPS = {"C02", "C03", "C04", "C10", "C13", "C15", "C17", "C18"}
+
+
+def miri_replay(prop, cases, model_obs, tmp, all_faults, shards=12, per_shard=14):
+    """corpus + short cases with an injected fault or an adversarial script first, run under
+    `cargo +nightly miri run` in parallel shards"""
+    idx = [i for i, c in enumerate(cases) if len(c.split(";")) <= 22]
+    pri = [i for i in idx if cases[i].split()[0] == "1" or cases[i].split()[2] != "0"]
+    rest = [i for i in idx if i not in set(pri)]
+    chosen = (pri[: shards * per_shard * 2 // 3] + rest)[: shards * per_shard]
+    if not chosen:
+        return {"miri_cases": 0}
+    env = dict(ENV, MIRIFLAGS="-Zmiri-ignore-leaks -Zmiri-disable-isolation", CARGO_TARGET_DIR=CACHE + "/target-miri")
+    b = subprocess.run("cd /verif/harness && cargo +nightly miri build --offline 2>&1 || cargo +nightly miri run --offline -- /dev/null /dev/null 2>&1",
+                       shell=True, text=True, capture_output=True, env=env, timeout=1800)
+    procs = []
+    for s in range(shards):
+        mine = chosen[s::shards]
+        if not mine:
+            continue
+        cp = f"{tmp}.miri{s}.cases"
+        with open(cp, "w") as f:
+            f.write("\n".join(cases[i] for i in mine) + "\n")
+        op, fp, mk = f"{tmp}.miri{s}.i", f"{tmp}.miri{s}.f", f"{tmp}.miri{s}.marker"
+        p = subprocess.Popen(f"cd /verif/harness && cargo +nightly miri run --offline -- {cp} {fp} {mk} > {op} 2> {op}.err",
+                             shell=True, env=env)
+        procs.append((mine, cp, op, fp, mk, p))
+    ub, diff_cases, ran = [], [], 0
+    for mine, cp, op, fp, mk, p in procs:
+        try:
+            rc = p.wait(timeout=2400)
+        except subprocess.TimeoutExpired:
+            p.kill()
+            rc = -9
+        err = open(op + ".err").read() if os.path.exists(op + ".err") else ""
+        if rc != 0:
+            try:
+                k = int(open(mk).read().split("\n")[0])
+                ci = mine[k]
+            except Exception:
+                ci = mine[0]
+            what = "Undefined Behavior" if "Undefined Behavior" in err else "abnormal exit"
+            msg = re.search(r"error: Undefined Behavior: ([^\n]*)", err)
+            all_faults.append(("miri", ci, f"FAULT {ci} op=? MIRI {what} under Miri: {msg.group(1) if msg else err[-200:].strip()}"))
+            ub.append(ci)
+            continue
+        got = read_obs(op)
+        for k, ci in enumerate(mine):
+            ran += 1
+            want = [" ".join(l.split()[2:]) for l in model_obs.get(ci, [])]
+            have = [" ".join(l.split()[2:]) for l in got.get(k, [])]
+            if want != have:
+                diff_cases.append(ci)
+        if os.path.exists(fp):
+            for ln in open(fp):
+                if ln.startswith("FAULT"):
+                    k = int(ln.split()[1])
+                    all_faults.append(("miri", mine[k] if 0 <= k < len(mine) else -1, ln.strip()))
+    return {"miri_cases": ran, "miri_ub": ub, "diff_cases": diff_cases}
+
+
+def coqchk(prop):
+    """thorough tier: re-check the property's compiled file and everything it depends on with the independent
+    checker; returns (ok, text)"""
+    r = sh(f"cd {COQ} && coqchk -o -silent -Q Model Model -Q Proofs Proofs -Q Props Props Props.{prop} 2>&1", timeout=3000)
+    out = r.stdout
+    ok = r.returncode == 0 and re.search(r"Axioms:\s*<none>", out) is not None
+    return ok, out[-1200:]
+
+
 def fault_kind(line):
     m = re.match(r"FAULT -?\d+ op=\S+ (\S+)", line)
     return m.group(1) if m else "?"
@@ -496,6 +567,15 @@ def check(prop, tier, replay=None):
     gate_ok, gate = proof_gate(prop)
     if not gate_ok:
         notes += gate["notes"]
+
+    chk_note = None
+    if tier == "thorough" and gate_ok and not replay:
+        okc, txt = coqchk(prop)
+        chk_note = "coqchk: " + ("ok, Axioms: <none>" if okc else "FAILED: " + txt[-400:])
+        notes.append(chk_note)
+        if not okc:
+            gate_ok = False
+            gate["notes"].append(chk_note)
 
     # 2. build the implementation side from the current /repo
     ok, msg = build_harness()
@@ -562,6 +642,17 @@ def check(prop, tier, replay=None):
                 for ln in open(fp):
                     if ln.startswith("FAULT"):
                         all_faults.append((prof, -1, ln.strip()))
+
+    # 4c. thorough tier: replay a sample under Miri (the implementation-side observable closest to the model's UB
+    #     outcome); Miri's trace must equal the model's as well
+    miri_info = {}
+    if tier == "thorough" and not replay and prop in MIRI_PROPS:
+        miri_info = miri_replay(prop, cases, model_obs1 or {}, tmp, all_faults)
+        notes.append("miri replay: %d cases run under Miri, %d with UB reported, %d differing from the model"
+                     % (miri_info.get("miri_cases", 0), len(miri_info.get("miri_ub", [])), len(miri_info.get("diff_cases", []))))
+        if miri_info.get("diff_cases"):
+            for ci in miri_info["diff_cases"][:3]:
+                diffs.append(("miri", ci))
 
     # 5. kernel cross-check of the extracted runner
     ksample, kfails = (0, [])
